@@ -14,7 +14,7 @@ if [ ! -d $S/repo ]; then
 fi
 git -C $S/repo reset -q --hard && git -C $S/repo checkout -q --detach "$(git -C /repo rev-parse HEAD)" && git -C $S/repo checkout -q -- . 
 mkdir -p $S/harness
-rsync -a --delete --exclude 'target*' /verif/harness/ $S/harness/
+rsync -a --delete --exclude 'target*' "${RV_HARNESS_SRC:-/verif/harness}/" $S/harness/
 sed -i "s#/repo/#$S/repo/#g" $S/harness/Cargo.toml
 cp /verif/KNOWN_FINDINGS.txt $S/
 # seeds were written against earlier commits of /repo: fall back to a 3-way merge when the context has moved
